@@ -156,7 +156,11 @@ Inductive node :=
 | NComment (c : text)
 | NEmbed (size count rep total : Z)
 | NSection (name : text)
-| NInst (i : x86inst).
+| NInst (i : x86inst)
+| NEmbedLabel (id size : Z)                  (* EmbedLabelNode: the data size is NOT printed *)
+| NEmbedLabelDelta (id base size : Z)
+| NConstPool (size align : Z)
+| NSentinel (func_end : bool).
 
 Definition node_body (f : fflags) (n : node) : text :=
   match n with
@@ -167,7 +171,12 @@ Definition node_body (f : fflags) (n : node) : text :=
       "."%char :: s (data_word false size) ++ s " {Count=" ++ dec count ++ s " Repeat=" ++ dec rep ++ s " TotalSize=" ++ dec total ++ s "}"
   | NSection name => s ".section " ++ name
   | NInst i => fmt_inst f i
+  | NEmbedLabel id _ => s ".label " ++ label_text id
+  | NEmbedLabelDelta id base _ => s ".label (" ++ label_text id ++ s " - " ++ label_text base ++ s ")"
+  | NConstPool size align => s "[ConstPool Size=" ++ dec size ++ s " Alignment=" ++ dec align ++ s "]"
+  | NSentinel fe => s (if fe then "[FuncEnd]" else "[Sentinel]")
   end.
+
 
 (* inline comment: padded to the regular-line column, "; " comment — not for comment nodes (they return early) *)
 Definition fmt_node (f : fflags) (pad : nat) (n : node) (inline : text) : text :=
@@ -178,6 +187,10 @@ Definition fmt_node (f : fflags) (pad : nat) (n : node) (inline : text) : text :
          | _ => pad_end (node_body f n) pad ++ s "; " ++ inline
          end
   end.
+
+(* an EmbedLabelNode of 4 bytes and one of 8 bytes print alike (the Assembler's own log line says ".dd L3" / ".dq L3") *)
+Lemma embed_label_node_size_lost f pad inline id : fmt_node f pad (NEmbedLabel id 4) inline = fmt_node f pad (NEmbedLabel id 8) inline.
+Proof. reflexivity. Qed.
 
 (* FormatFlags::kPositions: "<%05u> " before a node that has a position; the inline-comment padding starts after it *)
 Definition fmt_node_pos (positions : bool) (pos : Z) (f : fflags) (pad : nat) (n : node) (inline : text) : text :=
